@@ -140,7 +140,7 @@ def scalar_binop(I, ty, a, b, elementwise=False):
             return z3.If(y > 0, x % y, -((-x) % (-y)))
         # x % m on reals (python / numpy floor-mod): FMOD with its defining
         # facts for a positive modulus (background axiom below)
-        return FMOD(to_real(x), to_real(y))
+        return fmod_term(I, x, y)
     if ty is ast.Pow:
         if isinstance(b, int) and 0 <= b <= 4:
             r = to_z3(1) if z3.is_int(x) else z3.RealVal(1)
@@ -2198,27 +2198,38 @@ for _g in ("GA", "GB", "GJ", "HA", "HB", "HJ"):
 
 _fx_, _fm_ = z3.Reals("x!fmod m!fmod")
 from .values import BACKGROUND as _BG0   # noqa: E402
-_BG0.append(z3.ForAll([_fx_, _fm_], z3.Implies(_fm_ > 0, z3.And(
+# (NOT a background axiom: a quantified fact over two reals in every query
+# made counter-model searches ten times slower; it is added to the path
+# condition of the interpreters that create an FMOD term)
+_FMOD_AX = (z3.ForAll([_fx_, _fm_], z3.Implies(_fm_ > 0, z3.And(
     FMOD(_fx_, _fm_) >= 0, FMOD(_fx_, _fm_) < _fm_,
     z3.Implies(z3.And(_fx_ >= 0, _fx_ < _fm_), FMOD(_fx_, _fm_) == _fx_),
     z3.Implies(z3.And(_fx_ >= -_fm_, _fx_ < 0),
                FMOD(_fx_, _fm_) == _fx_ + _fm_))),
     patterns=[FMOD(_fx_, _fm_)]))
+
+
+def fmod_term(I, x, m):
+    if not I.__dict__.get("_fmod_ax"):
+        I.__dict__["_fmod_ax"] = True
+        I.pc.append(_FMOD_AX)
+    return FMOD(to_real(x), to_real(m))
+
+
 SPEC_CONSTS["PI"] = z3.Real("PI")
 _BG0.append(z3.And(z3.Real("PI") > z3.RealVal("3.14159"),
                    z3.Real("PI") < z3.RealVal("3.1416")))
 _SQRT = z3.Function("SQRT", z3.RealSort(), z3.RealSort())
-_BG0.append(z3.ForAll([_fx_], z3.And(
-    _SQRT(_fx_) >= 0,
-    z3.Implies(_fx_ >= 0, _SQRT(_fx_) * _SQRT(_fx_) == _fx_)),
-    patterns=[_SQRT(_fx_)]))
+# (only the sign: the defining square is a non-linear quantified fact that
+# slows every counter-model search down and no proof here needs it)
+_BG0.append(z3.ForAll([_fx_], _SQRT(_fx_) >= 0, patterns=[_SQRT(_fx_)]))
 # the numeric functions numpy applies element-wise, by name, for contracts
 for _nm in ("COS", "SIN", "SQRT", "ARCTAN2"):
     LIB["spec." + _nm] = E.LibFunc(
         "spec." + _nm, (lambda I, *a, _nm=_nm: uf(
             _nm, z3.RealSort(), *[to_real(_val(x)) for x in a])))
 LIB["spec.FMOD"] = E.LibFunc(
-    "spec.FMOD", lambda I, a, b: FMOD(to_real(_val(a)), to_real(_val(b))))
+    "spec.FMOD", lambda I, a, b: fmod_term(I, _val(a), _val(b)))
 
 _UFS = {}
 
